@@ -5,6 +5,7 @@ pub mod gen;
 pub mod gen_pic;
 pub mod hdr;
 pub mod hist;
+pub mod hostile;
 pub mod io;
 pub mod model;
 pub mod props;
